@@ -20,6 +20,7 @@ import (
 
 	"github.com/tdewolff/minify/v2"
 	mhtml "github.com/tdewolff/minify/v2/html"
+	mjs "github.com/tdewolff/minify/v2/js"
 	"github.com/tdewolff/parse/v2"
 	"github.com/tdewolff/parse/v2/buffer"
 	phtml "github.com/tdewolff/parse/v2/html"
@@ -63,11 +64,14 @@ func (o c03Opts) oracle() c03oOpts {
 
 var c03StubLabels = []string{"text/css", "application/javascript", "text/javascript", "image/svg+xml", "application/mathml+xml", "text/html", "application/json", "application/ld+json", "module"}
 
-func c03Stub(label string) minify.MinifierFunc {
+func c03Stub(label string, dropBackslash bool) minify.MinifierFunc {
 	return func(_ *minify.M, w io.Writer, r io.Reader, params map[string]string) error {
 		b, err := io.ReadAll(r)
 		if err != nil {
 			return err
+		}
+		if dropBackslash {
+			b = bytes.ReplaceAll(b, []byte{'\\'}, nil)
 		}
 		fl := "-"
 		if params["inline"] == "1" {
@@ -81,14 +85,32 @@ func c03Stub(label string) minify.MinifierFunc {
 // c03Registry: stub=false → no sub-minifier at all (everything embedded passes through);
 // stub=true → a recording stub for every media type
 func c03Registry(stub bool) *minify.M {
-	m := minify.New()
 	if stub {
+		return c03RegistryMode(1)
+	}
+	return c03RegistryMode(0)
+}
+
+// c03RegistryMode: 0 no sub-minifier, 1 recording stubs, 2 recording stubs that also drop every backslash of the
+// payload (`<\/script>` → `</script>`, `<!\--` → `<!--`: results that html.go's rawTextEndsAtEnd must reject)
+func c03RegistryMode(mode int) *minify.M {
+	m := minify.New()
+	if mode != 0 {
 		for _, l := range c03StubLabels {
-			m.AddFunc(l, c03Stub(l))
+			m.AddFunc(l, c03Stub(l, mode == 2))
 		}
-		m.AddFuncRegexp(regexp.MustCompile(`.*`), c03Stub("?"))
+		m.AddFuncRegexp(regexp.MustCompile(`.*`), c03Stub("?", mode == 2))
 	}
 	return m
+}
+
+func c03RunRealMode(in []byte, o c03Opts, mode int) (out []byte, err error, crash string) {
+	crash = h.Safely(20e9, func() {
+		var w bytes.Buffer
+		err = o.minifier().Minify(c03RegistryMode(mode), &w, bytes.NewReader(parse.Copy(in)), nil)
+		out = w.Bytes()
+	})
+	return
 }
 
 func c03RunReal(in []byte, o c03Opts, stub bool) (out []byte, err error, crash string) {
@@ -222,6 +244,13 @@ func c03ViewportSpaces(in []byte) []byte {
 }
 
 func c03Ext(toks []c03Tok, o c03Opts, stub bool) string {
+	if stub {
+		return c03ExtMode(toks, o, 1)
+	}
+	return c03ExtMode(toks, o, 0)
+}
+
+func c03ExtMode(toks []c03Tok, o c03Opts, mode int) string {
 	type key struct{ k, in string }
 	seen := map[key]bool{}
 	var gs [][][]byte
@@ -233,7 +262,7 @@ func c03Ext(toks []c03Tok, o c03Opts, stub bool) string {
 		seen[k] = true
 		gs = append(gs, [][]byte{[]byte(kind), parse.Copy(in), parse.Copy(out)})
 	}
-	m := c03Registry(stub)
+	m := c03RegistryMode(mode)
 	for _, t := range toks {
 		switch t.kind {
 		case 'S':
@@ -320,7 +349,7 @@ func (g *c03Gen) text() {
 }
 func (g *c03Gen) comment() {
 	if g.r.Chance(8) {
-		g.sb.WriteString(g.r.Pick([]string{"<!-- c -->", "<!---->", "<!-- a -- b -->", "<!--[if IE]><p>x</p><![endif]-->", "<!--#include x -->", "<!--[if !IE]>--><!--<![endif]-->"}))
+		g.sb.WriteString(g.r.Pick([]string{"<!-- c -->", "<!---->", "<!-- a -- b -->", "<!--[if IE]><p>x</p><![endif]-->", "<!--#include x -->", "<!--[if !IE]>--><!--<![endif]-->", "<!--[if IE]><a title=\"--&gt;\">x</a><![endif]-->", "<!--[if IE]><a title=\"--!&gt;\">x</a> <![endif]-->", "<!--[if IE]><a title=\"-&gt;\">x</a>  <b>y</b><![endif]-->"}))
 	}
 }
 
@@ -464,11 +493,11 @@ func (g *c03Gen) special(d int) {
 	switch g.r.Intn(14) {
 	case 0:
 		g.open("script")
-		g.sb.WriteString(g.r.Pick([]string{"", "x()", " a < b && c ", "var s='<b>';", "/* &amp; */ f( )"}))
+		g.sb.WriteString(g.r.Pick([]string{"", "x()", " a < b && c ", "var s='<b>';", "/* &amp; */ f( )", "s='<\\/script>'", "s='<\\/SCRIPT >x'", "<!\\--<script>x", "<!--<script>\\</script>-->", "a<!--b<\\/script>c", "<!-->x<\\/script", "s='<\\/scriptx>'"}))
 		g.close("script")
 	case 1:
 		g.open("style")
-		g.sb.WriteString(g.r.Pick([]string{"", "a{b:c}", " p > q { x : y } ", "a:before{content:\"&amp;  x\"}"}))
+		g.sb.WriteString(g.r.Pick([]string{"", "a{b:c}", " p > q { x : y } ", "a:before{content:\"&amp;  x\"}", "a{b:\"<\\/style>\"}", "a{b:< \\/style >}", "a{b:<\\/STYLE}", "<!--a{b:<\\/styles>}-->"}))
 		g.close("style")
 	case 2:
 		g.open("textarea")
@@ -546,7 +575,7 @@ func (g *c03Gen) special(d int) {
 		}
 	case 9:
 		g.open("iframe")
-		g.sb.WriteString(g.r.Pick([]string{"", " <p>x</p> ", "a  b"}))
+		g.sb.WriteString(g.r.Pick([]string{"", " <p>x</p> ", "a  b", "<\\/iframe><p>x", "<\\/ifram>"}))
 		g.close("iframe")
 	case 10:
 		g.open("canvas")
@@ -804,7 +833,7 @@ type c03DocCase struct {
 	name string
 	doc  []byte
 	mask int
-	stub bool
+	stub int // 0 no sub-minifier, 1 recording stubs, 2 stubs that drop backslashes
 	out  []byte
 }
 
@@ -837,9 +866,15 @@ func c03StageLoop(c *Ctx, docs [][]byte, names []string) error {
 			if allOpts {
 				mask = k<<2 | mask&0x43
 			}
-			stub := r.Chance(35)
+			sm := 0
+			if r.Chance(35) {
+				sm = 1
+				if r.Chance(40) {
+					sm = 2 // stubs whose results can end the raw text element early / leave it open
+				}
+			}
 			o := c03OptsOf(mask)
-			out, err, crash := c03RunReal(doc, o, stub)
+			out, err, crash := c03RunRealMode(doc, o, sm)
 			if crash != "" {
 				c.R.Add(h.Finding{Stage: st.Name, Kind: "crash", What: crash, Input: h.Q(doc), Hex: h.Hex(doc), Config: o.String()})
 				continue
@@ -848,12 +883,8 @@ func c03StageLoop(c *Ctx, docs [][]byte, names []string) error {
 				errs++
 				continue
 			}
-			sm := 0
-			if stub {
-				sm = 1
-			}
-			cases = append(cases, c03DocCase{names[i], doc, mask, stub, out})
-			lines = append(lines, "model.c03.minify "+h.Int(int64(mask))+" "+h.Int(int64(sm))+" "+c03Ext(toks, o, stub)+" "+enc)
+			cases = append(cases, c03DocCase{names[i], doc, mask, sm, out})
+			lines = append(lines, "model.c03.minify "+h.Int(int64(mask))+" "+h.Int(int64(sm))+" "+c03ExtMode(toks, o, sm)+" "+enc)
 		}
 	}
 	rep, err := h.Eval(lines)
@@ -1076,6 +1107,20 @@ func c03ReplayKnown(c *Ctx) error {
 				c.R.Add(h.Finding{Stage: "known", Kind: "fail", What: "known finding " + k.ID + " fails with a different signature: " + sig, Input: h.Q(in), Hex: h.Hex(in), Impl: res})
 			}
 			c.R.AddKnown(k.ID, still, k.What, h.Q(out)+" — "+res)
+		case "domjs": // html with the REAL js minifier registered (the dom stage itself runs without sub-minifiers)
+			m := minify.New()
+			m.AddFunc("application/javascript", mjs.Minify)
+			var w bytes.Buffer
+			var err error
+			crash := h.Safely(20e9, func() {
+				err = c03OptsOf(0).minifier().Minify(m, &w, bytes.NewReader(parse.Copy(in)), nil)
+			})
+			if crash != "" || err != nil {
+				c.R.AddKnown(k.ID, true, k.What, "crash/err: "+crash)
+				continue
+			}
+			res := c03oCompare(in, w.Bytes(), c03OptsOf(0).oracle())
+			c.R.AddKnown(k.ID, res != "", k.What, h.Q(w.Bytes())+" — "+res)
 		case "refs":
 			mode := 0
 			if v, ok := k.Replay["mode"].(float64); ok {
@@ -1185,4 +1230,103 @@ func c03ContextDocs(c *Ctx) (names []string, docs [][]byte) {
 		}
 	}
 	return
+}
+
+// ---------- rawlex: html.go's rawTextEndsAtEnd (through the real Minify) vs the model of the lexer's raw text scan ----------
+
+// c03RawAccepted: does the real html minifier use the sub-minifier result b as content of <name>?
+func c03RawAccepted(name string, b []byte) (accepted bool, crash string) {
+	m := minify.New()
+	m.AddFuncRegexp(regexp.MustCompile(`.*`), minify.MinifierFunc(func(_ *minify.M, w io.Writer, r io.Reader, _ map[string]string) error {
+		io.ReadAll(r)
+		_, err := w.Write(b)
+		return err
+	}))
+	in := []byte("<" + name + ">@</" + name + ">")
+	var w bytes.Buffer
+	crash = h.Safely(5e9, func() {
+		if err := c03OptsOf(0).minifier().Minify(m, &w, bytes.NewReader(parse.Copy(in)), nil); err != nil {
+			panic(err)
+		}
+	})
+	if crash != "" {
+		return
+	}
+	if bytes.Equal(w.Bytes(), in) {
+		return false, ""
+	}
+	if bytes.Equal(w.Bytes(), []byte("<"+name+">"+string(b)+"</"+name+">")) {
+		return true, ""
+	}
+	return false, "unexpected output " + h.Q(w.Bytes())
+}
+
+func c03StageRawLex(c *Ctx) error {
+	st := c.R.StartStage("rawlex", "sub-minifier results b (pieces: < / ! - > script SCRIPT scrip style STYLE iframe x 1 space newline <!-- --> </script <script, up to 7 pieces, exhaustive up to 3) offered for the content of <script>, <style>, <iframe> through the REAL html.Minify: written or rejected (rawTextEndsAtEnd on the real lexer) vs model rawTextEndsAtEnd (model of shiftRawText); for style/iframe additionally: accepted implies the standard's RAWTEXT tokenisation reads b back (Spec.HtmlRawText); non-trivial = rejected")
+	r := h.NewRNG(c.Seed ^ 0x5a17)
+	pieces := []string{"<", "/", "!", "-", ">", "script", "SCRIPT", "scrip", "style", "STYLE", "iframe", "x", "1", " ", "\n", "<!--", "-->", "</script", "<script", "</", "--"}
+	names := []string{"script", "style", "iframe"}
+	var bs [][]byte
+	var rec func(cur []byte, d int)
+	rec = func(cur []byte, d int) {
+		bs = append(bs, parse.Copy(cur))
+		if d == 0 {
+			return
+		}
+		for _, p := range pieces {
+			rec(append(parse.Copy(cur), p...), d-1)
+		}
+	}
+	rec(nil, c.N(2, 3))
+	n := c.N(6000, 200000)
+	for i := 0; i < n; i++ {
+		var b []byte
+		for k := 1 + r.Intn(7); k > 0; k-- {
+			b = append(b, r.Pick(pieces)...)
+		}
+		bs = append(bs, b)
+	}
+	type item struct {
+		name string
+		b    []byte
+		acc  bool
+	}
+	var items []item
+	var lines []string
+	for _, b := range bs {
+		for _, nm := range names {
+			acc, crash := c03RawAccepted(nm, b)
+			if crash != "" {
+				c.R.Add(h.Finding{Stage: st.Name, Kind: "crash", What: crash, Input: nm + " " + h.Q(b), Hex: h.Hex(b)})
+				continue
+			}
+			items = append(items, item{nm, b, acc})
+			lines = append(lines, "model.c03.rawok "+h.Hex([]byte(nm))+" "+h.Hex(b))
+		}
+	}
+	rep, err := h.Eval(lines)
+	if err != nil {
+		return err
+	}
+	for i, it := range items {
+		st.Count(it.name+" "+string(it.b), !it.acc)
+		got, ok, msg := h.DecodeReply(rep[i])
+		if !ok || len(got) != 2 {
+			c.R.Add(h.Finding{Stage: st.Name, Kind: "diff", What: "model error: " + msg, Input: it.name + " " + h.Q(it.b), Hex: h.Hex(it.b)})
+			continue
+		}
+		if (got[0] == '1') != it.acc {
+			c.R.Add(h.Finding{Stage: st.Name, Kind: "diff", What: "model.c03.rawok", Input: it.name + " " + h.Q(it.b), Hex: h.Hex(it.b), Impl: fmt.Sprint(it.acc), Model: string(got[:1])})
+			continue
+		}
+		if it.name != "script" {
+			if it.acc && got[1] != '1' {
+				c.R.Add(h.Finding{Stage: st.Name, Kind: "fail", What: "accepted raw text is not read back by the standard's RAWTEXT tokenisation", Input: it.name + " " + h.Q(it.b), Hex: h.Hex(it.b)})
+			} else if !it.acc && got[1] == '1' {
+				st.Tag("rejected-but-standard-would-read-it-back")
+			}
+		}
+	}
+	st.End()
+	return nil
 }
